@@ -685,6 +685,12 @@ func (w *wbuild) checkBuild(res *InvResult, req BuildReq, opts InvOpts, cm *cach
 	s := w.s
 	u := w.U
 	report := func(prop, class, sig, detail string) {
+		if w.fs != nil && w.fs.sigStep != 0 && res.ExitCode == 0 && prop != "C18" {
+			// an interrupted invocation that exits 0 claims a complete, successful build: whatever
+			// contradicts that is first of all "exits non-zero on SIGINT" (C18)
+			detail = fmt.Sprintf("SIGINT was delivered at step %d but grog exited 0; %s [%s/%s]", w.fs.sigStep, detail, prop, class)
+			prop, class, sig = "C18", "interrupted-build-exited-zero", "incomplete-build"
+		}
 		s.Report(simrt.Violation{Prop: prop, Class: class, Signature: sig, Detail: fmt.Sprintf("invocation %d (%s %v, %+v): %s\n--- log tail\n%s", res.N, req.Kind, req.Patterns, opts, detail, tailStr(res.Log, 12))})
 	}
 	if res.Cause == "abort" || s.Aborted() {
@@ -1043,6 +1049,9 @@ func (w *wbuild) checkBuild(res *InvResult, req BuildReq, opts InvOpts, cm *cach
 		default:
 			report("C06", "inexact-restore", diffClass(want, got), fmt.Sprintf("%s was restored from the cache but the result differs from what was cached: %s", l, diff))
 			report("C01", "restored-output-differs-from-clean-build", diffClass(want, got), fmt.Sprintf("%s was not executed and its outputs differ from a clean build of the current sources: %s", l, diff))
+			if w.mode == "remote" {
+				report("C08", "wrong-content-restored", diffClass(want, got), fmt.Sprintf("with the remote cache configured %s was restored with outputs that differ from a clean build while the build reported success (a remote error or missing object must degrade to a miss or a reported failure): %s", l, diff))
+			}
 			if w.fs != nil {
 				// fault runs: lost or unreadable cache data must lead to re-execution or a reported
 				// failure, never to a successful build with corrupt / partial outputs (C07)
